@@ -65,6 +65,20 @@ func validateURLPrefix(prefix string) error {
 // or percent-encoding character triplet.
 //
 // See safehtmlutil.IsSafeTrustedResourceURLPrefix for details on how the prefix is validated.
+// urlPrefixLeavesSchemeOpen reports whether text that follows the URL prefix could still change
+// the scheme or the origin of the URL, or whether they are unsafe already. Unlike the prefix
+// validators it does not look at how the prefix ends.
+func urlPrefixLeavesSchemeOpen(sc sanitizationContext, prefix string) bool {
+	decoded := html.UnescapeString(prefix)
+	switch {
+	case sc == sanitizationContextTrustedResourceURL:
+		return !safehtmlutil.IsSafeTrustedResourceURLPrefix(decoded)
+	case startsWithFullySpecifiedSchemePattern.MatchString(decoded):
+		return safehtml.URLSanitized(decoded).String() != decoded
+	}
+	return !strings.ContainsAny(decoded, "/?#")
+}
+
 func validateTrustedResourceURLPrefix(prefix string) error {
 	decoded, err := decodeURLPrefix(prefix)
 	if err != nil {
